@@ -151,21 +151,23 @@ func (w *world) analyseLog(es []*rm.Entry, o logOpts) []*evid.Violation {
 	return out
 }
 
-// checkOrder evaluates clause (5) for one logical read request.
+// checkOrder evaluates clause (5) for one logical read request that is offered
+// to every configured host. Hosts that were never contacted count as "after"
+// every contacted one.
 func (w *world) checkOrder(lr []*rm.Entry, st map[string]*hostState, timingOff bool) []*evid.Violation {
 	var out []*evid.Violation
 	var firsts []string
-	seenH := map[string]bool{}
+	pos := map[string]int{}
 	for _, e := range lr {
 		if _, known := w.spec[e.Host]; !known {
 			continue
 		}
-		if !seenH[e.Host] {
-			seenH[e.Host] = true
+		if _, ok := pos[e.Host]; !ok {
+			pos[e.Host] = len(firsts)
 			firsts = append(firsts, e.Host)
 		}
 	}
-	if len(firsts) < 2 {
+	if len(firsts) == 0 || len(w.names) < 2 {
 		return nil
 	}
 	clean := func(h string) bool {
@@ -178,11 +180,24 @@ func (w *world) checkOrder(lr []*rm.Entry, st map[string]*hostState, timingOff b
 		for _, h := range firsts {
 			p = append(p, fmt.Sprintf("%s(prio %d)", short(h), w.prio(h)))
 		}
-		return strings.Join(p, " -> ")
+		rest := []string{}
+		for _, h := range w.names {
+			if _, ok := pos[h]; !ok {
+				rest = append(rest, fmt.Sprintf("%s(prio %d)", short(h), w.prio(h)))
+			}
+		}
+		s := strings.Join(p, " -> ")
+		if len(rest) > 0 {
+			s += " [never contacted: " + strings.Join(rest, ", ") + "]"
+		}
+		return s
 	}
-	for i := 0; i < len(firsts); i++ {
-		for j := i + 1; j < len(firsts); j++ {
-			a, b := firsts[i], firsts[j] // a was contacted before b
+	for i, a := range firsts {
+		for _, b := range w.names {
+			if pb, ok := pos[b]; b == a || (ok && pb < i) {
+				continue
+			}
+			// a was contacted before b (or b never)
 			if clean(a) && clean(b) {
 				if w.prio(b) > w.prio(a) {
 					out = append(out, evid.V("mirror-order-not-descending-priority", "read %s %s: first contacts %s; %s (priority %d) was tried before %s (priority %d) although neither host had failed before",
@@ -199,6 +214,11 @@ func (w *world) checkOrder(lr []*rm.Entry, st map[string]*hostState, timingOff b
 				if sa.lastRA > 0 {
 					win = sa.lastRA
 					sig = "retry-after-host-tried-before-available-host"
+				}
+				if w.prio(a) < w.prio(b) {
+					// b also outranks a by priority: while priorities are sorted the wrong way round this
+					// order is already explained by that defect; equal / higher priority pairs isolate (5b)
+					sig = "mirror-order-not-descending-priority"
 				}
 				if aFirst < sa.lastFail.Done+win {
 					out = append(out, evid.V(sig, "read %s %s: first contacts %s; %s failed request #%d (%s) at %v and has to be backed off from for at least %v, the order of this request was decided before %v (arrival of its first attempt), "+
@@ -226,6 +246,18 @@ func (w *world) checkWrites(es []*rm.Entry, writeHost string) *evid.Violation {
 	return nil
 }
 
+// patchKey identifies "the same chunk sent to the same upload session": host,
+// repository, session id, Content-Range and body. The query string and a
+// relocated path suffix are left out because servers may hand out a new state
+// token / location with every reply; that is not progress.
+func patchKey(e *rm.Entry) string {
+	id := e.Ref
+	if i := strings.IndexByte(id, '/'); i >= 0 {
+		id = id[:i]
+	}
+	return e.Host + "|" + e.Repo + "|" + id + "|" + e.Header.Get("Content-Range") + "|" + rm.Digest("sha256", e.Body)
+}
+
 // checkUploadProgress evaluates the upload part of clause (2): no
 // byte-identical PATCH (same URL incl. query, same Content-Range, same body)
 // more often than a fixed bound.
@@ -242,7 +274,7 @@ func (w *world) checkUploadProgress(es []*rm.Entry) *evid.Violation {
 		if e.Class != "upload-patch" || e.Fault == "cap" {
 			continue
 		}
-		k := e.Host + e.Path + "?" + e.RawQuery + "|" + e.Header.Get("Content-Range") + "|" + rm.Digest("sha256", e.Body)
+		k := patchKey(e)
 		r, ok := cnt[k]
 		if !ok {
 			r = &rec{first: e, st: map[int]int{}}
@@ -258,8 +290,7 @@ func (w *world) checkUploadProgress(es []*rm.Entry) *evid.Violation {
 		if e.Class != "upload-patch" {
 			continue
 		}
-		k := e.Host + e.Path + "?" + e.RawQuery + "|" + e.Header.Get("Content-Range") + "|" + rm.Digest("sha256", e.Body)
-		r := cnt[k]
+		r := cnt[patchKey(e)]
 		if r == nil || r.n <= bound || r.first != e {
 			continue
 		}
@@ -281,7 +312,7 @@ func (w *world) checkUploadProgress(es []*rm.Entry) *evid.Violation {
 		case best == 0:
 			sig = "chunk-patch-transport-error-repeated-unbounded"
 		}
-		return evid.V(sig, "the byte-identical PATCH %s?%s Content-Range %q was sent %d times (bound %d); replies by status %v: the upload session repeats a request without making progress\n%s",
+		return evid.V(sig, "the same PATCH (session %s?%s, Content-Range %q, identical body) was sent %d times (bound %d); replies by status %v: the upload session repeats a request without making progress\n%s",
 			e.Path, e.RawQuery, e.Header.Get("Content-Range"), r.n, bound, r.st, dumpLog(es[:min(len(es), 40)]))
 	}
 	return nil
